@@ -223,7 +223,38 @@ type placement struct {
 	// Chars: the value contains characters a decoder on the way may choke on or rewrite (name of an entry of
 	// charVariants; "" = letters, digits, '_', '-', '.' only). The remote side knows exactly that byte string.
 	Chars string `json:"special_characters,omitempty"`
-	For   int    `json:"for_position"` // chain position the item was generated for (-1: none)
+	// Repeat: the query parameter is sent once more after this one (name of an entry of repeatVariants; "" = sent once),
+	// with the value RepeatValue. The first occurrence is the one that carries the credentials.
+	Repeat      string `json:"query_parameter_repeated,omitempty"`
+	RepeatValue string `json:"repeated_with_value,omitempty"`
+	For         int    `json:"for_position"` // chain position the item was generated for (-1: none)
+}
+
+// repeatVariant: how a credential query parameter is sent a second time: with no value, the same value, or another value
+// of the same kind and class (rejected credentials only), right after the first occurrence or apart from it (an
+// unrelated parameter in between). Whatever an implementation makes of the second occurrence, the request carries
+// credentials of that kind: a rejected value can never count as "no credentials".
+type repeatVariant struct {
+	Name, Second string
+	Apart        bool
+}
+
+var repeatVariants = []repeatVariant{
+	{Name: "empty-next", Second: "empty"},
+	{Name: "empty-apart", Second: "empty", Apart: true},
+	{Name: "equal-next", Second: "equal"},
+	{Name: "equal-apart", Second: "equal", Apart: true},
+	{Name: "other-next", Second: "other"},
+	{Name: "other-apart", Second: "other", Apart: true},
+}
+
+func repeatVariantByName(n string) repeatVariant {
+	for _, v := range repeatVariants {
+		if v.Name == n {
+			return v
+		}
+	}
+	panic("unknown repeat variant " + n)
 }
 
 type lreq struct {
@@ -255,6 +286,9 @@ func (r lreq) shapeKey() string {
 		}
 		if it.Chars != "" {
 			size += "+chars-" + it.Chars
+		}
+		if it.Repeat != "" {
+			size += "+repeated-" + it.Repeat
 		}
 		p = append(p, fmt.Sprintf("%s[%s%s]=%s-%s%s@%d", it.Slot, it.Scheme, sep, it.Kind, it.Class, size, it.For))
 	}
@@ -393,6 +427,8 @@ type stepView struct {
 	Slot    string  `json:"slot,omitempty"`
 	Size    string  `json:"size,omitempty"` // size class of the value it sees ("" = short)
 	Chars   string  `json:"special_characters,omitempty"`
+	// Repeat: the query parameter it reads is present more than once (see repeatVariants)
+	Repeat string `json:"query_parameter_repeated,omitempty"`
 }
 
 // what: Seen, the size class of the value and the special characters in it (part of violation signatures).
@@ -403,6 +439,9 @@ func (v stepView) what() string {
 	}
 	if v.Chars != "" {
 		s += "+chars-" + v.Chars
+	}
+	if v.Repeat != "" {
+		s += "+repeated-" + v.Repeat
 	}
 	return s
 }
@@ -458,7 +497,7 @@ func classify(e elem, r lreq) stepView {
 		}
 		return stepView{Verdict: vNone, Seen: "absent"}
 	}
-	sv := stepView{Seen: seenName(it.Kind, it.Class), Slot: it.Slot, Size: it.Size, Chars: it.Chars}
+	sv := stepView{Seen: seenName(it.Kind, it.Class), Slot: it.Slot, Size: it.Size, Chars: it.Chars, Repeat: it.Repeat}
 	if raw == "" { // whitespace only value
 		sv.Verdict = vAmbig
 		return sv
